@@ -73,6 +73,23 @@ CLAIMED = {
         ref="DESIGN.md §6 C17",
         technique="Lean 4 proof (mutual structural recursion over nested analyses, pigeonhole via Mathlib List.Nodup.subperm) + differential correspondence",
     ),
+    "C15": dict(
+        text="Lean 4 theorems: (walk, any hierarchy / sharing / device map) compilation keeps modules, instance names and order and every "
+        "connection, changes a target only for a technology-mapped primitive in a reached module and to exactly the mapped device, gives equal "
+        "parameters the same device, is idempotent, and fails only with the error of a request no device satisfies; (selection, any table) what "
+        "is selected is in the table and carries the requested name / type-family-threshold / type-family, uniquely for Gf180; (tables regenerated "
+        "from /repo/pdks on every run, evaluated in the kernel) every entry is what its own name selects, every triple / pair carried by an entry "
+        "selects an entry carrying it or the descriptive ambiguity error, every device has the default sizes the code looks up, device ports are "
+        "the primitive's ports except for recorded devices, for which the negation is proved; (registry) default / by name / by module. Tied to "
+        "the code by exhaustive compilation of every table entry x reaching primitive x sizes and of all 72 triples per PDK, generated hierarchies "
+        "x 4 PDKs x once/twice, registry op sequences in fresh interpreters, and the logic-cell libraries instantiated and netlisted.",
+        note="66 known findings (known_findings.json): a primitive whose port list differs from the selected device's (2- vs 3-terminal resistors / "
+        "capacitors, the 5-terminal Sky130 Mos, 4-terminal bipolars) compiles into an instance with an unconnected or dangling port. Parameter "
+        "translation beyond sizes-given-or-default is checked by correspondence only. The device map of the hierarchy stream is read off the "
+        "implementation's result (structure, sharing, idempotence are what that stream decides; device choice is decided by the tables stream).",
+        ref="DESIGN.md §6 C15",
+        technique="Lean 4 proof (structural induction over the walk; decide +kernel over regenerated device tables) + exhaustive and generated differential correspondence",
+    ),
     "C14": dict(
         text="Lean 4 theorems (Mathlib ℚ) over the model of hdl21/prefix.py: add/sub/mul/neg/abs/scale return exactly the "
         "rational result for every mantissa, exponent and prefix pair; comparisons are total, satisfy trichotomy and the usual "
